@@ -55,6 +55,19 @@ func c07Spec(c c07Case, encrypted bool) idp.ResponseSpec {
 	return r
 }
 
+// c07RecipNear are near misses of the SP certificate as the named recipient: valid base64 of
+// bytes that are not the SP certificate (must refuse), and the SP certificate itself in
+// line-wrapped base64 (the same certificate).
+var c07RecipNear = []string{"KS~caseswap", "KS~firstletter", "KS~truncated", "KS~trailing", "KS~bitflip", "KS~wrapped", "KX~wrapped"}
+
+func c07RecipForeign(recip string) bool {
+	switch recip {
+	case "", "KS", "KS~wrapped":
+		return false
+	}
+	return true
+}
+
 func c07Exec(c c07Case) (keys []string, detail, class string) {
 	return c07ExecOn(c, nil)
 }
@@ -107,7 +120,7 @@ func c07ExecOn(c c07Case, live *saml2.SAMLServiceProvider) (keys []string, detai
 	inWindow := ck.Off >= -time.Hour && ck.Off <= time.Hour
 	mustRefuse := ""
 	switch {
-	case c.Recip == "KX" || c.Recip == "garbage":
+	case c07RecipForeign(c.Recip):
 		mustRefuse = "recipient-certificate-differs-from-SP/" + c.Recip
 	case c.Validate && c.CertState != "":
 		mustRefuse = "validate-on/certificate-" + c.CertState
@@ -281,7 +294,21 @@ func c07Run(r *mc.Run) {
 		}
 		cases = append(cases, c)
 	})
+	mc.Enumerate(-1, r.Expired, func(ch *mc.Chooser) {
+		c := c07Case{Clock: 0} // mid-window
+		c.Recip = c07RecipNear[ch.Choose("recip-near-miss", len(c07RecipNear))]
+		c.Placement = []string{"response-signed", "assertion-signed"}[ch.Choose("placement", 2)]
+		c.Validate = ch.Bool("validate")
+		c.DataAlg = ch.Choose("dataalg", 2)
+		c.Detached = ch.Bool("detached")
+		c.Setter = ch.Bool("setter")
+		if !c.Setter {
+			c.Custom = ch.Bool("custom-key-store")
+		}
+		cases = append(cases, c)
+	})
 	r.Set("partB_choice_vectors", n)
+	r.Set("partB_near_miss_recipient_cases", len(cases)-n)
 	r.Par(len(cases), func(i int) {
 		c := cases[i]
 		keys, detail, class := c07Exec(c)
